@@ -19,8 +19,9 @@ for p in props:
     fns = sorted({f for o in obs for f in o["fns"]})
     out.append("| %s | %d (%d / %d / %d) | %d | %s | %d, e.g. %s |" % (p, len(obs), c, b, v, q, ", ".join(x.replace("jxl-", "") for x in crates), len(fns), ", ".join("`%s`" % f for f in fns[:6])))
 out.append("")
-out.append("Total: %d obligations over %d distinct real functions. Deviations from section 4: the planned ANS alias-table and prefix "
-           "`with_code_lengths` construction contracts, the weighted-predictor combination, `Passes` round trip and feed-level C09 relation did not close in CBMC "
+out.append("Total: %d obligations over %d distinct real functions. Deviations from section 4: the ANS alias-table and prefix table construction "
+           "close only on concrete / bounded headers (with `--max-field-sensitivity-array-size 512`), compressed-form ANS histograms, `parse_complex`, the "
+           "weighted-predictor combination, the `Passes` round trip and the feed-level C09 relation did not close in CBMC "
            "(listed as unverified in the evidence of C04/C03/C14/C09); blend kernels other than Replace/Add/Skip use the documented exact-point fallback; "
            "header geometry index functions are bounded to 16x16 / 64x64 group grids instead of complete.\n" % (len(registry.OBLIGATIONS), len({f for o in registry.OBLIGATIONS for f in o["fns"]})))
 rp = os.path.join(VERIF, "selftest", "results.json")
